@@ -42,6 +42,17 @@ pub fn cases(thorough: bool, seed: u64) -> Vec<Params> {
             }
         }
     }
+    // larger groups (code paths specialised by size): honest consistency and one tampered share
+    for (n, t) in if thorough { vec![(9u16, 5u16), (12, 9), (34, 2), (40, 33), (65, 3)] } else { vec![(9u16, 5u16), (34, 2)] } {
+        for ids in [IdSet::Default, IdSet::Wide(seed)] {
+            if n > 12 && ids != IdSet::Default {
+                continue;
+            }
+            out.push(Params { n, t, ids: ids.clone(), subset: vec![], variant: V_HONEST, aux: 0, seed });
+            out.push(Params { n, t, ids: ids.clone(), subset: vec![n as usize - 1], variant: V_SHARE, aux: 0, seed });
+            out.push(Params { n, t, ids: ids.clone(), subset: vec![n as usize / 2], variant: V_COEFF, aux: t as u64 - 1, seed });
+        }
+    }
     // parameter grid and identifier-list refusals (independent of the sweep)
     for i in 0..(GRID.len() * GRID.len()) as u64 {
         let (n, t) = (GRID[(i as usize) / GRID.len()], GRID[(i as usize) % GRID.len()]);
